@@ -35,8 +35,8 @@ RULE = ("history of 6-25 registry operations over <=5 open models with names fro
         "(new/read/rename onto a taken name) happened while >=1 other model held values; distinct = case hash")
 ASSUMPTIONS = [
     "the registry reference is a dict from name to creation index, updated by the documented rules",
-    "closing an already closed handle may raise or do nothing (it must not touch the registry); other operations on "
-    "closed models are outside the generated domain",
+    "closing or renaming through the handle of a closed model may raise or do nothing (it must not touch the registry); "
+    "other operations on closed models are outside the generated domain",
 ]
 SIGNATURES = {}
 
@@ -77,7 +77,8 @@ def histories(draw):
                 ops.append(["close_again", idx])
             else:
                 # close, let a new model take the name, close the old handle once more
-                ops += [["close", idx], ["new_model_like", idx], ["close_again", idx]]
+                ops += [["close", idx], ["new_model_like", idx],
+                        draw(st.sampled_from([["close_again", idx], ["rename_stale", idx, draw(st.sampled_from(NAMES))]]))]
                 nmodels += 1
         elif k == 6:
             ops.append(["write", idx, nslots, draw(st.booleans())])
@@ -280,6 +281,16 @@ def _run(case, out, root):
             touched.add(j)
             # models holding a reference into the closed one are not asserted
             touched |= {a for a, b in xrefs if b == j}
+        elif k == "rename_stale":
+            # rename() on the handle of a model that was closed earlier (its name may have been taken since)
+            j = op[1]
+            if j >= len(handles) or is_open[j]:
+                continue
+            try:
+                handles[j].rename(op[2])
+            except Exception:
+                pass
+            out.count("stale_renames")
         elif k == "close_again":
             # close() on the handle of a model that was closed earlier (its name may have been taken since)
             j = op[1]
